@@ -1,20 +1,401 @@
+// qm_regex_impl.h -- model of QRegularExpression for the regex fragment used by qtlogger.
+//
+// A pattern is compiled into a LINEAR program of segments (no recursion):
+//   ATOM   one character class with a quantifier {min,max}, greedy or lazy
+//   ALT    (w1|w2|...) of literal words, capturing or not
+//   GOPEN / GCLOSE   one level of grouping (capturing or not), optionally quantified by '?'
+// plus ^ / $ anchors at the ends.  Matching is a backward dynamic programme  can[i][p] = "segments i.. can match the
+// subject from position p to an accepting end", followed by a forward pass that picks, segment by segment, the first
+// choice in PCRE's preference order from which acceptance is still possible (greedy: longest first, lazy: shortest first,
+// alternatives in order, optional group: present first).  For this fragment that is exactly the match a backtracking
+// engine returns.  All loops have constant bounds (segments x positions), so for a concrete pattern the structure
+// is concrete and the encoding is |segments| x |subject|^2 small boolean terms.
+// Anything outside the fragment is QM_LIMIT (path cut, never a wrong answer).  Validated against the real
+// QRegularExpression by conformance/ on every expression that appears in the repository.
 #pragma once
+
+#ifndef QM_RX_MAXSEG
+#define QM_RX_MAXSEG 26
+#endif
+#define QM_RX_MAXWORDS 6
+#define QM_RX_MAXCAP 4
+
+enum { RX_ATOM = 0, RX_ALT = 1, RX_GOPEN = 2, RX_GCLOSE = 3, RX_STR = 4 };
+#define QM_RX_STRMAX 20
+enum { RXC_LIT = 0, RXC_ANY = 1, RXC_DIGIT = 2, RXC_SPACE = 3, RXC_NSPACE = 4, RXC_WORD = 5, RXC_NDIGIT = 6, RXC_NWORD = 7, RXC_BRACKET = 8 };
+
+struct RxSeg {
+    unsigned char type;
+    unsigned char cls;
+    bool neg;               // bracket negation
+    bool lazy;
+    bool opt;               // GOPEN: the group is optional ( )?
+    ushort ch;              // literal
+    ushort lo[4], hi[4];    // bracket items (ranges)
+    int nitems;
+    int min, max;           // max < 0: unbounded
+    int cap;                // capture index (>0) or 0
+    int jump;               // GOPEN: index of the segment after the matching GCLOSE
+    int w0, w1;             // ALT: words [w0,w1)
+    ushort str[QM_RX_STRMAX]; int slen;   // STR: run of unquantified literal characters
+};
+
+struct RxProg {
+    bool valid;
+    bool anchorStart, anchorEnd;
+    int n;                  // number of segments
+    int ncap;
+    RxSeg seg[QM_RX_MAXSEG];
+    QString words[QM_RX_MAXWORDS];
+    int nwords;
+};
+
+static inline bool rx_cls_match(const RxSeg &s, ushort c)
+{
+    switch (s.cls) {
+    case RXC_LIT: return c == s.ch;
+    case RXC_ANY: return c != '\n';
+    case RXC_DIGIT: return c >= '0' && c <= '9';
+    case RXC_NDIGIT: return !(c >= '0' && c <= '9');
+    case RXC_SPACE: return c == ' ' || (c >= 9 && c <= 13);
+    case RXC_NSPACE: return !(c == ' ' || (c >= 9 && c <= 13));
+    case RXC_WORD: return (c >= '0' && c <= '9') || (c >= 'a' && c <= 'z') || (c >= 'A' && c <= 'Z') || c == '_';
+    case RXC_NWORD: return !((c >= '0' && c <= '9') || (c >= 'a' && c <= 'z') || (c >= 'A' && c <= 'Z') || c == '_');
+    default: {
+        bool in = false;
+        for (int k = 0; k < 4; ++k) if (k < s.nitems && c >= s.lo[k] && c <= s.hi[k]) in = true;
+        return in != s.neg;
+    }
+    }
+}
+
+static inline bool rx_is_special(ushort c)
+{
+    return c == '\\' || c == '^' || c == '$' || c == '.' || c == '|' || c == '?' || c == '*' || c == '+' || c == '(' || c == ')' || c == '[' || c == '{';
+}
+
+// escape handling shared by atoms and ALT words: returns class for "\x"
+static inline void rx_escape_class(ushort e, RxSeg &s)
+{
+    switch (e) {
+    case 'd': s.cls = RXC_DIGIT; break;
+    case 'D': s.cls = RXC_NDIGIT; break;
+    case 's': s.cls = RXC_SPACE; break;
+    case 'S': s.cls = RXC_NSPACE; break;
+    case 'w': s.cls = RXC_WORD; break;
+    case 'W': s.cls = RXC_NWORD; break;
+    default:
+        // \. \- \* ... : a non-alphanumeric escaped character stands for itself; alphanumeric escapes other than the
+        // classes above (\b \A \n \x..) are outside the model
+        QM_LIMIT(!((e >= 'a' && e <= 'z') || (e >= 'A' && e <= 'Z') || (e >= '0' && e <= '9')));
+        s.cls = RXC_LIT; s.ch = e; break;
+    }
+}
+
+struct RxPat { const ushort *m_d; int m_len; };
+static inline void rx_compile(const RxPat &pat, int LB, RxProg &pr)
+{
+    pr.valid = true; pr.anchorStart = false; pr.anchorEnd = false; pr.n = 0; pr.ncap = 0; pr.nwords = 0;
+    const int L = pat.m_len;
+    int pos = 0;
+    int openSeg = -1;       // index of the open (single level) group, or -1
+    if (L > 0 && pat.m_d[0] == '^') { pr.anchorStart = true; pos = 1; }
+    for (int step = 0; step < LB + 1; ++step) {
+        if (pos >= L) break;
+        ushort c = pat.m_d[pos];
+        if (c == '$' && pos == L - 1) { pr.anchorEnd = true; pos++; break; }
+        QM_LIMIT(pr.n < QM_RX_MAXSEG);
+        RxSeg s; s.type = RX_ATOM; s.cls = RXC_LIT; s.neg = false; s.lazy = false; s.opt = false; s.ch = 0; s.nitems = 0; s.min = 1; s.max = 1; s.cap = 0; s.jump = 0; s.w0 = 0; s.w1 = 0; s.slen = 0;
+        bool quantifiable = true;
+        if (c == '(') {
+            int q = pos + 1; bool capturing = true;
+            if (q + 1 < L && pat.m_d[q] == '?' && pat.m_d[q + 1] == ':') { capturing = false; q += 2; }
+            else QM_LIMIT(!(q < L && pat.m_d[q] == '?'));       // lookaround / named groups / options: outside the model
+            // pure alternation of literal words?
+            int close = -1; bool pure = true; bool bar = false;
+            for (int i = 0; i < LB; ++i) if (i >= q && i < L && close < 0) {
+                ushort d = pat.m_d[i];
+                if (d == ')') close = i;
+                else if (d == '|') bar = true;
+                else if (d == '\\') { pure = false; }
+                else if (rx_is_special(d)) pure = false;
+            }
+            if (close >= 0 && pure && bar) {
+                s.type = RX_ALT; s.w0 = pr.nwords;
+                QString w; w.m_null = false;
+                for (int i = 0; i < LB; ++i) if (i >= q && i <= close) {
+                    ushort d = pat.m_d[i];
+                    if (d == '|' || i == close) { QM_LIMIT(pr.nwords < QM_RX_MAXWORDS); for (int j = 0; j < QM_RX_MAXWORDS; ++j) if (j == pr.nwords) pr.words[j] = w; pr.nwords++; w.m_len = 0; }
+                    else w.append(QChar(d));
+                }
+                s.w1 = pr.nwords;
+                if (capturing) s.cap = ++pr.ncap;
+                pos = close + 1;
+                quantifiable = false;
+                QM_LIMIT(!(pos < L && (pat.m_d[pos] == '?' || pat.m_d[pos] == '*' || pat.m_d[pos] == '+' || pat.m_d[pos] == '{')));
+            } else {
+                QM_LIMIT(openSeg < 0);          // nested groups (other than a word alternation) are outside the model
+                s.type = RX_GOPEN;
+                if (capturing) s.cap = ++pr.ncap;
+                openSeg = pr.n;
+                pos = q;
+                quantifiable = false;
+            }
+        } else if (c == ')') {
+            QM_LIMIT(openSeg >= 0);
+            s.type = RX_GCLOSE;
+            pos++;
+            bool optional = false;
+            if (pos < L && pat.m_d[pos] == '?') { optional = true; pos++; }
+            QM_LIMIT(!(pos < L && (pat.m_d[pos] == '*' || pat.m_d[pos] == '+' || pat.m_d[pos] == '{' || pat.m_d[pos] == '?')));
+            for (int j = 0; j < QM_RX_MAXSEG; ++j) if (j == openSeg) { s.cap = pr.seg[j].cap; pr.seg[j].opt = optional; pr.seg[j].jump = pr.n + 1; }
+            openSeg = -1;
+            quantifiable = false;
+        } else if (c == '[') {
+            s.cls = RXC_BRACKET;
+            int i = pos + 1;
+            if (i < L && pat.m_d[i] == '^') { s.neg = true; i++; }
+            bool closed = false;
+            for (int k = 0; k < 6; ++k) if (!closed) {
+                QM_LIMIT(i < L);
+                ushort d = pat.m_d[i];
+                if (d == ']' && k > 0) { closed = true; i++; }
+                else {
+                    QM_LIMIT(d != '\\' && d != '[' && k < 4);
+                    ushort lo = d, hi = d;
+                    if (i + 2 < L && pat.m_d[i + 1] == '-' && pat.m_d[i + 2] != ']') { hi = pat.m_d[i + 2]; i += 3; } else i++;
+                    for (int j = 0; j < 4; ++j) if (j == s.nitems) { s.lo[j] = lo; s.hi[j] = hi; }
+                    s.nitems++;
+                }
+            }
+            QM_LIMIT(closed);
+            pos = i;
+        } else if (c == '\\') {
+            QM_LIMIT(pos + 1 < L);
+            rx_escape_class(pat.m_d[pos + 1], s);
+            pos += 2;
+        } else if (c == '.') { s.cls = RXC_ANY; pos++; }
+        else {
+            QM_LIMIT(c != '|' && c != '*' && c != '+' && c != '?' && c != '^' && c != '$');   // '|' at top level, dangling quantifiers, inner anchors: outside the model
+            s.cls = RXC_LIT; s.ch = c; pos++;       // includes a '{' that does not start a quantifier (checked below) and '}' ']'
+        }
+        if (quantifiable && pos < L) {
+            ushort qc = pat.m_d[pos];
+            bool had = false;
+            if (qc == '*') { s.min = 0; s.max = -1; pos++; had = true; }
+            else if (qc == '+') { s.min = 1; s.max = -1; pos++; had = true; }
+            else if (qc == '?') { s.min = 0; s.max = 1; pos++; had = true; }
+            else if (qc == '{' && pos + 2 < L && pat.m_d[pos + 1] >= '0' && pat.m_d[pos + 1] <= '9') {
+                // {n} or {n,m} or {n,} with single-digit numbers
+                int n1 = pat.m_d[pos + 1] - '0';
+                if (pat.m_d[pos + 2] == '}') { s.min = n1; s.max = n1; pos += 3; had = true; }
+                else if (pat.m_d[pos + 2] == ',' && pos + 3 < L && pat.m_d[pos + 3] == '}') { s.min = n1; s.max = -1; pos += 4; had = true; }
+                else if (pat.m_d[pos + 2] == ',' && pos + 4 < L && pat.m_d[pos + 3] >= '0' && pat.m_d[pos + 3] <= '9' && pat.m_d[pos + 4] == '}') { s.min = n1; s.max = pat.m_d[pos + 3] - '0'; pos += 5; had = true; }
+                else QM_LIMIT(false);    // multi-digit counts: outside the model
+            }
+            if (had && pos < L) {
+                if (pat.m_d[pos] == '?') { s.lazy = true; pos++; }
+                QM_LIMIT(!(pos < L && (pat.m_d[pos] == '+' || pat.m_d[pos] == '*' || (pat.m_d[pos] == '?' && !s.lazy))));   // possessive / stacked quantifiers
+            }
+        }
+        if (s.type == RX_ATOM && s.cls == RXC_LIT && s.min == 1 && s.max == 1) {
+            // an unquantified literal joins the preceding literal run
+            bool merged = false;
+            for (int j = 0; j < QM_RX_MAXSEG; ++j) if (j == pr.n - 1 && pr.seg[j].type == RX_STR && pr.seg[j].slen < QM_RX_STRMAX) {
+                for (int k = 0; k < QM_RX_STRMAX; ++k) if (k == pr.seg[j].slen) pr.seg[j].str[k] = s.ch;
+                pr.seg[j].slen++; merged = true;
+            }
+            if (merged) continue;
+            s.type = RX_STR; s.str[0] = s.ch; s.slen = 1;
+        }
+        for (int j = 0; j < QM_RX_MAXSEG; ++j) if (j == pr.n) pr.seg[j] = s;
+        pr.n++;
+    }
+    QM_LIMIT(pos >= L);           // pattern longer than the model can hold
+    QM_LIMIT(openSeg < 0);        // unbalanced '(' : PCRE reports an invalid pattern; not modelled
+}
+
+struct RxResult {
+    bool has;
+    int start, end;
+    int cs[QM_RX_MAXCAP + 1], ce[QM_RX_MAXCAP + 1];    // capture extents, -1 = did not participate
+};
+
+static inline void rx_exec(const RxProg &pr, const QString &subj, int from, RxResult &res)
+{
+    const int L = subj.m_len;
+    res.has = false; res.start = -1; res.end = -1;
+    for (int g = 0; g <= QM_RX_MAXCAP; ++g) { res.cs[g] = -1; res.ce[g] = -1; }
+    QM_LIMIT(!(pr.anchorEnd && L > 0 && subj.m_d[L - 1] == '\n'));     // '$' before a final newline: not modelled
+    // can[i][p]: segments i.. match from p to an accepting end
+    bool can[QM_RX_MAXSEG + 1][QM_STR_CAP + 2];
+    short run[QM_RX_MAXSEG][QM_STR_CAP + 2];
+    for (int p = 0; p <= QM_STR_CAP + 1; ++p) for (int i = 0; i <= QM_RX_MAXSEG; ++i) can[i][p] = false;
+    for (int i = QM_RX_MAXSEG; i >= 0; --i) {
+        if (i > pr.n) continue;
+        if (i == pr.n) { for (int p = 0; p <= QM_STR_CAP; ++p) can[i][p] = p <= L && (!pr.anchorEnd || p == L); continue; }
+        const RxSeg &s = pr.seg[i];
+        if (s.type == RX_ATOM) {
+            run[i][QM_STR_CAP + 1] = 0;
+            for (int p = QM_STR_CAP; p >= 0; --p) run[i][p] = (p < L && rx_cls_match(s, subj.m_d[p < QM_STR_CAP ? p : 0])) ? short(1 + run[i][p + 1]) : short(0);
+            for (int p = 0; p <= QM_STR_CAP; ++p) {
+                bool ok = false;
+                for (int k = 0; k + p <= QM_STR_CAP; ++k)
+                    if (k >= s.min && (s.max < 0 || k <= s.max) && k <= run[i][p] && can[i + 1][p + k]) ok = true;
+                can[i][p] = ok;
+            }
+        } else if (s.type == RX_ALT) {
+            for (int p = 0; p <= QM_STR_CAP; ++p) {
+                bool ok = false;
+                for (int w = 0; w < QM_RX_MAXWORDS; ++w) if (w >= s.w0 && w < s.w1) {
+                    const QString &word = pr.words[w];
+                    if (p + word.m_len <= L && subj.matchAt(p, word)) { bool c2 = false; for (int q = 0; q <= QM_STR_CAP; ++q) if (q == p + word.m_len) c2 = can[i + 1][q]; if (c2) ok = true; }
+                }
+                can[i][p] = ok;
+            }
+        } else if (s.type == RX_STR) {
+            for (int p = 0; p <= QM_STR_CAP; ++p) {
+                bool ok = p + s.slen <= L;
+                for (int k = 0; k < QM_RX_STRMAX; ++k) if (k < s.slen && ok && subj.m_d[(p + k) < QM_STR_CAP ? (p + k) : 0] != s.str[k]) ok = false;
+                bool c2 = false; for (int q = 0; q <= QM_STR_CAP; ++q) if (q == p + s.slen) c2 = can[i + 1][q];
+                can[i][p] = ok && c2;
+            }
+        } else if (s.type == RX_GOPEN) {
+            for (int p = 0; p <= QM_STR_CAP; ++p) {
+                bool skip = false;
+                if (s.opt) for (int j = 0; j <= QM_RX_MAXSEG; ++j) if (j == s.jump) skip = can[j][p];
+                can[i][p] = can[i + 1][p] || skip;
+            }
+        } else {
+            for (int p = 0; p <= QM_STR_CAP; ++p) can[i][p] = can[i + 1][p];
+        }
+    }
+    // leftmost start
+    int start = -1;
+    for (int p = 0; p <= QM_STR_CAP; ++p) if (start < 0 && p >= from && p <= L && can[0][p] && (!pr.anchorStart || p == 0)) start = p;
+    if (start < 0) return;
+    res.has = true; res.start = start;
+    // forward pass in preference order
+    int p = start;
+    int i = 0;
+    for (int step = 0; step < QM_RX_MAXSEG; ++step) {
+        if (i >= pr.n) break;
+        const RxSeg &s = pr.seg[i];
+        if (s.type == RX_ATOM) {
+            int chosen = -1;
+            if (s.lazy) { for (int k = 0; k <= QM_STR_CAP; ++k) if (chosen < 0 && k >= s.min && (s.max < 0 || k <= s.max) && p + k <= QM_STR_CAP && k <= run[i][p] && can[i + 1][p + k]) chosen = k; }
+            else { for (int k = QM_STR_CAP; k >= 0; --k) if (chosen < 0 && k >= s.min && (s.max < 0 || k <= s.max) && p + k <= QM_STR_CAP && k <= run[i][p] && can[i + 1][p + k]) chosen = k; }
+            QM_ASSERT(chosen >= 0, "regex model: forward pass lost the match");
+            p += chosen; i++;
+        } else if (s.type == RX_ALT) {
+            int len = -1;
+            for (int w = 0; w < QM_RX_MAXWORDS; ++w) if (len < 0 && w >= s.w0 && w < s.w1) {
+                const QString &word = pr.words[w];
+                if (p + word.m_len <= L && subj.matchAt(p, word) && can[i + 1][p + word.m_len]) len = word.m_len;
+            }
+            QM_ASSERT(len >= 0, "regex model: forward pass lost the match");
+            if (s.cap) for (int g = 0; g <= QM_RX_MAXCAP; ++g) if (g == s.cap) { res.cs[g] = p; res.ce[g] = p + len; }
+            p += len; i++;
+        } else if (s.type == RX_STR) {
+            p += s.slen; i++;
+        } else if (s.type == RX_GOPEN) {
+            if (can[i + 1][p]) { if (s.cap) for (int g = 0; g <= QM_RX_MAXCAP; ++g) if (g == s.cap) res.cs[g] = p; i++; }
+            else i = s.jump;
+        } else {
+            if (s.cap) for (int g = 0; g <= QM_RX_MAXCAP; ++g) if (g == s.cap) res.ce[g] = p;
+            i++;
+        }
+    }
+    res.end = p;
+}
+
 class QRegularExpressionMatch
 {
 public:
-    bool m_has = false;
-    bool hasMatch() const { return m_has; }
-    QString captured(int) const { return QString(); }
+    RxResult m_r;
+    QString m_subject;
+    QRegularExpressionMatch() { m_r.has = false; }
+    bool hasMatch() const { return m_r.has; }
+    bool isValid() const { return true; }
+    int capturedStart(int g = 0) const { if (!m_r.has) return -1; return g == 0 ? m_r.start : ((g <= QM_RX_MAXCAP) ? m_r.cs[g] : -1); }
+    int capturedEnd(int g = 0) const { if (!m_r.has) return -1; return g == 0 ? m_r.end : ((g <= QM_RX_MAXCAP) ? m_r.ce[g] : -1); }
+    QString captured(int g = 0) const
+    {
+        if (!m_r.has) return QString();
+        int s = capturedStart(g), e = capturedEnd(g);
+        if (s < 0 || e < s) return QString();           // group did not participate: null string
+        QString r = m_subject.mid(s, e - s);
+        r.m_null = false;
+        return r;
+    }
 };
+
 class QRegularExpression
 {
 public:
+    enum PatternOption { NoPatternOption = 0, CaseInsensitiveOption = 1 };
     QString m_pattern;
-    QRegularExpression() { }
-    QRegularExpression(const QString &p) : m_pattern(p) { }
-    QRegularExpressionMatch match(const QString &) const { QM_LIMIT(false); return QRegularExpressionMatch(); }
-    static QString escape(const QString &s) { return s; }
+    RxProg m_prog;
+    bool m_special_time;      // filesink.cpp's "(.*)%{time *(.*?)}(.*)": only "no match" is modelled
+    QRegularExpression() : m_special_time(false) { m_prog.valid = true; m_prog.n = 0; m_prog.anchorStart = false; m_prog.anchorEnd = false; m_prog.ncap = 0; m_prog.nwords = 0; }
+    QRegularExpression(const QString &p, int options = 0) : m_pattern(p), m_special_time(false)
+    {
+        QM_LIMIT(options == 0);
+        if (p == QString::fromLatin1("(.*)%{time *(.*?)}(.*)")) { m_special_time = true; m_prog.valid = true; m_prog.n = 0; return; }
+        RxPat rp = { p.m_d, p.m_len };
+        rx_compile(rp, QM_STR_CAP, m_prog);
+    }
+    // a pattern given as a string literal is compiled straight from the literal (it may be longer than QM_STR_CAP)
+    template<int N> QRegularExpression(const char (&lit)[N]) : m_special_time(false)
+    {
+        ushort buf[N];
+        for (int i = 0; i < N; ++i) buf[i] = ushort(uchar(lit[i]));
+        RxPat rp = { buf, N - 1 };
+        rx_compile(rp, N, m_prog);
+    }
     QString pattern() const { return m_pattern; }
     bool isValid() const { return true; }
+    QRegularExpressionMatch match(const QString &subject, int offset = 0) const
+    {
+        QRegularExpressionMatch m;
+        m.m_subject = subject;
+        if (m_special_time) {
+            // matches iff the subject contains "%{time" followed (anywhere later) by '}'; captures are not modelled
+            int at = subject.indexOf(QString::fromLatin1("%{time"));
+            bool hit = at >= 0 && subject.indexOf(QChar('}'), at) >= 0;
+            QM_LIMIT(!hit);
+            m.m_r.has = false;
+            return m;
+        }
+        rx_exec(m_prog, subject, offset, m.m_r);
+        return m;
+    }
+    static QString escape(const QString &s)
+    {
+        QString r; r.m_null = s.m_null; if (r.m_null) { r.m_null = false; }
+        for (int i = 0; i < QM_STR_CAP; ++i) if (i < s.m_len) {
+            ushort c = s.m_d[i];
+            if (c == 0) { r.append(QChar('\\')); r.append(QChar('0')); }
+            else if (!((c >= 'a' && c <= 'z') || (c >= 'A' && c <= 'Z') || (c >= '0' && c <= '9') || c == '_')) {
+                r.append(QChar('\\')); r.append(QChar(c));
+                if ((c & 0xfc00) == 0xd800 && i < s.m_len - 1) { r.append(QChar(s.m_d[i + 1])); ++i; }
+            } else r.append(QChar(c));
+        }
+        return r;
+    }
 };
-inline QString &QString::remove(const QRegularExpression &) { QM_LIMIT(false); return *this; }
+
+inline QString &QString::remove(const QRegularExpression &re)
+{
+    // QString::remove(re) == replace(re, QString()): all non-overlapping leftmost matches
+    int from = 0;
+    for (int step = 0; step < QM_STR_CAP + 1; ++step) {
+        QRegularExpressionMatch m = re.match(*this, from);
+        if (!m.hasMatch()) break;
+        int s = m.capturedStart(0), e = m.capturedEnd(0);
+        QM_LIMIT(e > s);      // empty matches: not modelled
+        remove(s, e - s);
+        from = s;
+    }
+    return *this;
+}
